@@ -20,7 +20,7 @@ VARIABLES l, world, cur, keyM, keyC, pAny, pTag,
 tvars == <<l, world, cur, keyM, keyC, pAny, pTag, info, full, time, match>>
 
 C == INSTANCE Claims WITH Deviations <- {}, MaxClaims <- 0, MaxDeletes <- 0, SAttrs <- {}, SVals <- {}, SDates <- {},
-                          DelDates <- {}, DelSigners <- {}, MixDeletes <- FALSE, world <- world
+                          ClaimSigners <- {}, DelDates <- {}, DelSigners <- {}, MixDeletes <- FALSE, world <- world
 
 Trace == ndJsonDeserialize(IOEnv.TRACE_FILE)
 Ev == Trace[l]
